@@ -20,6 +20,10 @@ def check(run):
         combcheck.run_group(run, GROUP, (1, 2, 3, 4), 1 << 12, wide=(8, 16))
     else:
         combcheck.run_group(run, GROUP, (1, 2, 3, 4, 5), 1 << 14, big=True, wide=(8, 13, 16, 30))
+    if run.tier == 'quick':
+        combcheck.run_x(run, GROUP, (1, 2, 3), 256)
+    else:
+        combcheck.run_x(run, GROUP, (1, 2, 3, 4, 5), 1 << 12)
     run.assumptions += ['values below 2^30 (TLC integers); multiplier operands at most 15 bits',
                         'Div/Mod/SignedDiv are not judged for a zero divisor; rotations not judged for amounts above the data width']
 
